@@ -2,7 +2,7 @@
 (base/) gf_vect_mad_base, ec_encode_data_update_base, gf_vect_mul_base against the specification,
 order-independence / cancellation of updates."""
 from vlib.core import Query
-from harness.C03.base_plan import glue_queries, GLUE_INFO
+from harness.C03.base_plan import glue_queries, GLUE_INFO, CADICAL
 
 R = "vlib.cbmc:cbmc_query"
 HB = "harness/C03/h_ec_base.c"
@@ -13,36 +13,36 @@ def base_queries(tier):
     qs = glue_queries(tier, update=True)
     qs.append(Query("base/mad/real_leaf/len1_k2", R,
                     dict(harness=HB, units=["erasure_code/ec_base.c"], hdefines=["H_MAD", "REAL_LEAF", "LEN=1", "KK=2"], unwind=65,
-                         witness=True), core=True, family="base/mad", weight=10))
-    mads = [(0, 1), (1, 1), (2, 3), (4, 2)] if quick else [(l, k) for l in range(0, 5) for k in range(1, 4)]
+                         witness=True, flags=CADICAL), core=True, family="base/mad", weight=10))
+    mads = [(0, 1), (1, 1), (2, 3), (4, 3)] if quick else [(l, k) for l in range(0, 5) for k in range(1, 4)] + [(8, 4), (16, 2)]
     for (l, k) in mads:
         qs.append(Query("base/mad/len%d_k%d" % (l, k), R,
-                        dict(harness=HB, units=[], hdefines=["H_MAD", "LEN=%d" % l, "KK=%d" % k], unwind=max(33, 32 * k + 1),
-                             witness=(l > 0)), core=(l, k) == (2, 3), family="base/mad", weight=5 + 3 * l))
-    upds = [(0, 2, 2), (1, 1, 1), (2, 3, 2), (2, 2, 3)] if quick else \
-        [(l, k, r) for l in (0, 1, 2, 4) for k in (1, 2, 3) for r in (1, 2, 3) if l * r <= 8] + [(4, 3, 3)]
+                        dict(harness=HB, units=[], hdefines=["H_MAD", "LEN=%d" % l, "KK=%d" % k], unwind=max(33, 32 * k + 1, l + 2),
+                             witness=(l > 0), flags=CADICAL), core=(l, k) in ((2, 3), (4, 3)), family="base/mad", weight=2 + l))
+    upds = [(0, 2, 2), (1, 1, 1), (2, 3, 2), (2, 2, 3), (4, 3, 3)] if quick else \
+        [(l, k, r) for l in (0, 1, 2, 3, 4) for k in (1, 2, 3) for r in (1, 2, 3)] + [(8, 4, 4), (4, 2, 7)]
     for (l, k, r) in upds:
         qs.append(Query("base/upd/len%d_k%d_r%d" % (l, k, r), R,
                         dict(harness=HB, units=[], hdefines=["H_UPD", "LEN=%d" % l, "KK=%d" % k, "ROWS=%d" % r],
-                             unwind=max(33, k * r + 1), witness=(l > 0), timeout=None if quick else 1200),
-                        core=(l, k, r) == (2, 3, 2), family="base/upd", weight=5 + 6 * l * r))
+                             unwind=max(33, k * r + 1, l + 2), witness=(l > 0), timeout=None if quick else 1200, flags=CADICAL),
+                        core=(l, k, r) in ((2, 3, 2), (4, 3, 3)), family="base/upd", weight=2 + l * r))
     # gf_vect_mul_base: error path (no store) for every residue class sampled, success for len 0 and 32
-    bad = [1, 31, 33] if quick else [1, 2, 16, 31, 33, 48, 63, 65]
+    bad = [1, 16, 31, 33, 48] if quick else [1, 2, 8, 16, 24, 31, 33, 48, 63, 65, 96]
     for l in bad:
         qs.append(Query("base/vect_mul/badlen%d" % l, R,
                         dict(harness=HB, units=[], hdefines=["H_MUL", "LEN=%d" % l], unwind=max(33, l + 2), witness=True),
                         core=(l == 31), family="base/vect_mul", weight=2))
     for l in [0, 32] + ([] if quick else [64]):
         qs.append(Query("base/vect_mul/len%d" % l, R,
-                        dict(harness=HB, units=[], hdefines=["H_MUL", "LEN=%d" % l], unwind=max(33, l + 2), witness=(l > 0),
-                             timeout=600 if quick else 1200), core=False, family="base/vect_mul", weight=60 if l else 2))
+                        dict(harness=HB, units=[], hdefines=["H_MUL", "LEN=%d" % l], unwind=max(33, l + 2), witness=False,
+                             timeout=450 if quick else 1200, flags=CADICAL), core=(l == 32), family="base/vect_mul", weight=40 if l else 2))
     # order independence / cancellation on the real update + encode functions
-    orders = [(1, 2, 2), (1, 3, 1)] if quick else [(1, 2, 2), (1, 3, 1), (1, 3, 2), (2, 3, 2), (2, 2, 3)]
+    orders = [(1, 2, 2), (2, 3, 2)] if quick else [(1, 2, 2), (1, 3, 1), (1, 3, 2), (2, 3, 2), (2, 2, 3), (4, 3, 3)]
     for (l, k, r) in orders:
         qs.append(Query("base/order/len%d_k%d_r%d" % (l, k, r), R,
                         dict(harness=HB, units=[], hdefines=["H_ORDER", "LEN=%d" % l, "KK=%d" % k, "ROWS=%d" % r],
-                             unwind=max(33, k * r + 1), witness=True, timeout=None if quick else 1200),
-                        core=False, family="base/order", weight=20 * l * k * r))
+                             unwind=max(33, k * r + 1), witness=True, timeout=None if quick else 1200, flags=CADICAL),
+                        core=(l, k, r) == (1, 2, 2), family="base/order", weight=2 * l * k * r))
     info = {k: (list(v) if isinstance(v, list) else dict(v)) for k, v in GLUE_INFO.items()}
     info["functions_encoded"] = ["ec_encode_data_update_{sse,avx,avx2,avx512,avx512_gfni,avx2_gfni} (erasure_code/ec_highlevel_func.c, real text)",
                                  "gf_vect_mad_base", "ec_encode_data_update_base", "gf_vect_mul_base", "ec_encode_data_base (order lemma)",
